@@ -38,6 +38,12 @@ def run(ctx: RuleContext):
     ctx.sub(check_by_reference, ctx)
     ctx.sub(check_sentinels_by_reference, ctx)
     ctx.sub(check_no_mutable_state_in_namespace, ctx)
+    # C20.7: what an annotation accepts is decided from the annotation's own attributes, not from a table keyed by
+    # something that a reloaded copy can share with another annotation (`id()` of a freed tuple, a name, a repr)
+    from ..roles import roles_for
+    from ._memo import check_no_lossy_memo
+
+    ctx.sub(check_no_lossy_memo, ctx, "C20.7", roles_for(ctx.model), what="the verdict")
 
 
 def _reducer(ctx):
